@@ -121,6 +121,7 @@ def _generate(c):
     s.data_seed = ch.subseed("w", "data")
     rs = numpy.random.RandomState(s.data_seed)
     s.X = U.unique_rows(rs, s.n, s.d, ch.choice("w", ["normal", "grid", "clusters"], "xstyle"))
+    s.xdtype = ch.weighted("w", [("float64", 6), ("int64", 1), ("float32", 1)], "xdtype")
     if s.kind == "reg":
         s.y = s.X @ rs.randn(s.d) + numpy.sin(s.X[:, 0]) + 0.1 * rs.randn(s.n)
         s.ltype = "float-target"
@@ -145,6 +146,13 @@ def _generate(c):
         # recombine coordinates of training rows: cells unseen at training
         new = numpy.stack([s.X[rs.randint(0, s.n, m_new), j] for j in range(s.d)], axis=1) if m_new else new
     s.Xq = numpy.ascontiguousarray(numpy.vstack([s.X[old], new.reshape(m_new, s.d)]))
+    if s.xdtype == "int64":
+        # count-like features (rows stay pairwise distinct)
+        s.X = numpy.round(s.X * 8).astype(numpy.int64) * (s.n + 1) + numpy.arange(s.n)[:, None]
+        s.Xq = numpy.vstack([s.X[old], numpy.round(new.reshape(m_new, s.d) * 8).astype(numpy.int64) * (s.n + 1)])
+    elif s.xdtype == "float32":
+        s.X = s.X.astype(numpy.float32)
+        s.Xq = s.Xq.astype(numpy.float32)
     s.g = ch.subseed("r", "global-seed")
     s.os_base = ch.subseed("r", "os-entropy-base")
     return s
@@ -324,6 +332,19 @@ def _execute(c, s, n_jobs, seen):
                     _viol(c, s, "routing", ("output", meth, "fallback", "unseen-only-batch"), "%s on a batch made only of rows of unseen cells (%d rows) does not return the fallback model's output" % (meth, len(sub)), seen)
                     break
             c.probe("unseen_only_batch_checked")
+        # the caller reuses one array object for successive batches
+        if bad is None and Xq.shape[0] >= 2:
+            buf = Xq.copy()
+            ok3, _first = U.sut(c, meth + "(buffer)", getattr(model, meth), buf)
+            perm = numpy.roll(numpy.arange(Xq.shape[0]), 1)
+            buf[...] = Xq[perm]
+            ok4, second = U.sut(c, meth + "(buffer refilled)", getattr(model, meth), buf)
+            if ok3 and ok4:
+                second = numpy.asarray(second)
+                same3 = second.shape == res.shape and (bool(numpy.all(second == res[perm])) if (meth == "predict" and s.kind == "clf") else U.arrays_equal(second, res[perm]))
+                if not same3:
+                    _viol(c, s, "routing", ("output", meth, "buffer-reuse"), "%s on an array object that was predicted before and refilled in place does not return the outputs of its current rows" % meth, seen)
+            c.probe("buffer_reused")
         # ---- (f) distributions / labels
         if meth == "predict_proba":
             k = len(model.classes_)
@@ -351,6 +372,7 @@ def run(c, index, tier):
         "weights": s.w is not None,
         "random_state": s.random_state,
         "X_as_frame": s.frame,
+        "X_dtype": s.xdtype,
         "query_rows": int(s.Xq.shape[0]),
         "data_seed": s.data_seed,
         "schedules": [],
